@@ -181,6 +181,7 @@ impl<'de, R: Reader<'de>> Parser<R> {
             number_end(old(self).read.data(), old(self).read.idx() - 1).is_some() ==> res.is_ok()
                 && final(self).read.idx() == number_end(old(self).read.data(), old(self).read.idx() - 1).unwrap(),
             final(self).read.idx() >= old(self).read.idx(),
+            res.is_err() ==> err_ok(res->Err_0, old(self).read.data()),
     { unimplemented!() }
 
     // parse_str: scanning half verified in unit `strings`; acceptance + decoded text assumed here
@@ -192,6 +193,7 @@ impl<'de, R: Reader<'de>> Parser<R> {
                 && res.unwrap().rbytes() == decoded(old(self).read.data(), old(self).read.idx() as int, final(self).read.idx() - 1),
             // completeness on what this unit needs: a literal the grammar accepts and the decoder can decode
             final(self).read.idx() >= old(self).read.idx(),
+            res.is_err() ==> err_ok(res->Err_0, old(self).read.data()),
     { unimplemented!() }
 
     // non-validating skipper: proved in unit `unchecked` (skip_one_unchecked == skip_one on a well-formed value that is
@@ -204,6 +206,7 @@ impl<'de, R: Reader<'de>> Parser<R> {
             value_end(old(self).read.data(), old(self).read.idx() as int).is_some()
                 && follow_ok(old(self).read.data(), value_end(old(self).read.data(), old(self).read.idx() as int).unwrap())
                 ==> res.is_ok() && final(self).read.idx() == value_end(old(self).read.data(), old(self).read.idx() as int).unwrap(),
+            res.is_err() ==> err_ok(res->Err_0, old(self).read.data()),
     { unimplemented!() }
 
 //@extract file=src/parser.rs impl="Parser<R>" fn=match_literal
@@ -215,6 +218,8 @@ impl<'de, R: Reader<'de>> Parser<R> {
             res.is_ok() ==> res == Ok::<bool, Error>(true) && lit_end(old(self).read.data(), old(self).read.idx() as int, literal.spec_bytes()) == Some(final(self).read.idx() as int),
             lit_end(old(self).read.data(), old(self).read.idx() as int, literal.spec_bytes()).is_some() ==> res.is_ok(),
             final(self).read.idx() >= old(self).read.idx(),
+            // every error is made by Parser::error: positioned inside the input (C20)
+            res.is_err() ==> err_ok(res->Err_0, old(self).read.data()),
 //@end
 
 //@extract file=src/parser.rs impl="Parser<R>" fn=get_owned_lazyvalue
@@ -236,6 +241,8 @@ impl<'de, R: Reader<'de>> Parser<R> {
                 &&& (value_end(s, i).is_some() && (strict || follow_ok(s, value_end(s, i).unwrap()))
                         ==> res.is_ok() && final(self).read.idx() == value_end(s, i).unwrap() && res.unwrap().shape() == child_shape(s, i))
             }),
+            // every error is made by Parser::error: positioned inside the input (C20)
+            res.is_err() ==> err_ok(res->Err_0, old(self).read.data()),
 //@before /let c = self\.skip_space\(\);/
         let ghost s = self.read.data();
         let ghost i0 = self.read.idx() as int;
@@ -252,6 +259,8 @@ impl<'de, R: Reader<'de>> Parser<R> {
         ensures final(self).pinv(), final(self).same_doc(old(self)), final(self).read.idx() >= old(self).read.idx(),
             res.is_ok() ==> str_end(old(self).read.data(), old(self).read.idx() as int) == Some(final(self).read.idx() as int)
                 && res.unwrap().fbytes() == decoded(old(self).read.data(), old(self).read.idx() as int, final(self).read.idx() - 1),
+            // every error is made by Parser::error: positioned inside the input (C20)
+            res.is_err() ==> err_ok(res->Err_0, old(self).read.data()),
 //@end
 
 //@extract file=src/parser.rs impl="Parser<R>" fn=load_owned_lazyvalue
@@ -276,6 +285,8 @@ impl<'de, R: Reader<'de>> Parser<R> {
                 &&& (value_end(s, i).is_some() && res.is_ok() && p < s.len() && s[p] == 0x22 ==>
                         res.unwrap().shape() == Olv::Str(decoded(s, p + 1, str_end(s, p + 1).unwrap() - 1)))
             }),
+            // every error is made by Parser::error: positioned inside the input (C20)
+            res.is_err() ==> err_ok(res->Err_0, old(self).read.data()),
 //@before /match self\.skip_space\(\) \{/ #1
         proof {
             assert(pair_shapes(Seq::<(FastStr, OwnedLazyValue)>::empty()) =~= Seq::<(Seq<u8>, Olv)>::empty());
